@@ -255,7 +255,7 @@ class World:
         self.error = None
         try:
             with np.errstate(all="ignore"):
-                self.final = self.sampler.sample(self.N, **kw)
+                self.final = self.sampler.sample(getattr(self, "N_arg", self.N), **kw)
         except RuntimeError as e:
             self.error = e
         return self
@@ -510,6 +510,13 @@ def replay_loop(cex, props):
                 w = World(cex, model).build().run()
                 bad += w.bad
                 info = oracle_run(w, props, bad)
+            elif flow == "twice":
+                w = World(cex, model).build().run()
+                bad += w.bad
+                oracle_run(w, props, bad, tag="[first run]")
+                w.kernel_inputs = []
+                w.run()
+                info = oracle_run(w, props - {"C17"}, bad, tag="[second run on the same sampler]")
             elif flow == "resume":
                 info = _replay_resume(cex, model, props, bad, tmp)
             elif flow == "cadence":
@@ -535,7 +542,7 @@ def _replay_resume(cex, model, props, bad, tmp):
     for k, ck in enumerate(ref.checkpoints):
         for route in routes:
             src = ck["bytes"]
-            if route == "dict":
+            if route in ("dict", "dict_twice"):
                 src = pickle.loads(ck["bytes"])
             elif route == "live_dict":
                 src = ck["live_state"]
@@ -543,7 +550,12 @@ def _replay_resume(cex, model, props, bad, tmp):
                 continue
             res = World(cex, model, tag=f"r{k}", rng=CRng(model, "other", 77)).build()
             res.kernel_offset = ck["n_acc"]
+            res.N_arg = res.N + int(cfg.get("resume_n_samples_delta", 0))
             res.run(resume_from=src, checkpoint_callback=res.callback, checkpoint_every=1)
+            if route == "dict_twice":
+                res = World(cex, model, tag=f"s{k}", rng=CRng(model, "other", 78)).build()
+                res.kernel_offset = ck["n_acc"]
+                res.run(resume_from=src, checkpoint_callback=res.callback, checkpoint_every=1)
             bad += res.bad
             tag = f"[resume@{k}/{route}]"
             compare(ref, res, bad, tag)
